@@ -1,11 +1,22 @@
 package main
 
+import "reflect"
+
 // dirun <cfgbits> <T> <doc hex> <tags>
 //
 // = the shared `unm` (sonic + encoding/json on a fresh zero value of T).  The Lean driver answers the same line with
 // `Dir.exec` of the MODEL compiler's program for T (Driver/Dir.lean): the behavioural voice of the decoder-IR model.
 
+// DirRef / DirRefT: DEFINED pointer types whose element has a pointer-receiver json.Unmarshaler / encoding.TextUnmarshaler; the
+// defined types themselves have no methods (findings C09-jitdec-namedptr-inline-depth, C01-field-defined-pointer-type-calls-
+// elem-unmarshaler).  Mirrored in lean/SonicSpec/Model/Dir.lean `libInfo`.
+type DirRef *MV
+type DirRefT *TV
+
 func init() {
+	// after `libNames` was computed: the generators of other work packages do not see these
+	libTypes["DirRef"] = reflect.TypeOf(DirRef(nil))
+	libTypes["DirRefT"] = reflect.TypeOf(DirRefT(nil))
 	registerOp("dirun", func(a []string) string {
 		return ops["unm"](a[:3])
 	})
